@@ -4,12 +4,13 @@ from __future__ import annotations
 import itertools
 
 from .common import torch
-from inferno.neural import Biclique, DeltaCurrent, LIF, LinearDense, RecurrentSerial, Serial, SingleExponentialCurrent
+from inferno.neural import Biclique, DeltaCurrent, DeltaPlusCurrent, DoubleExponentialCurrent, LIF, LinearDense, RecurrentSerial, Serial, SingleExponentialCurrent
 
 
 def conn(seed, syn="delta", delay=None, B=2):
     torch.manual_seed(seed)
-    s = DeltaCurrent.partialconstructor(20.0) if syn == "delta" else SingleExponentialCurrent.partialconstructor(20.0, 5.0)
+    s = {"delta": lambda: DeltaCurrent.partialconstructor(20.0), "single": lambda: SingleExponentialCurrent.partialconstructor(20.0, 5.0),
+         "double": lambda: DoubleExponentialCurrent.partialconstructor(20.0, 6.0, 2.0), "deltaplus": lambda: DeltaPlusCurrent.partialconstructor(20.0)}[syn]()
     return LinearDense((3,), (2,), 1.0, synapse=s, delay=delay, batch_size=B)
 
 
@@ -29,7 +30,9 @@ def not_at_rest(comps):
     for name, m in comps:
         if hasattr(m, "synapse"):
             syn = m.synapse
-            if float(syn.current.abs().max()) != 0.0 or bool(syn.spike.any()):
+            parts = [getattr(syn, a) for a in ("pos_current_", "neg_current_", "current_") if hasattr(syn, a)]
+            dirty = any(r.value is not None and float(r.value.abs().max()) != 0.0 for r in parts)
+            if float(syn.current.abs().max()) != 0.0 or bool(syn.spike.any()) or dirty:
                 bad.append(name)
         else:
             f = lif(m.batchsz)
@@ -40,7 +43,8 @@ def not_at_rest(comps):
 
 def serial_case(syn, delay, k):
     xs = inputs(9)
-    lay = Serial(conn(1, syn, delay), lif(), lambda x: x * 1.5)
+    lc, ln = conn(1, syn, delay), lif()
+    lay = Serial(lc, ln, lambda x: x * 1.5)
     tw_c, tw_n = conn(1, syn, delay), lif()
     for t, x in enumerate(xs):
         if t == k:
@@ -49,6 +53,9 @@ def serial_case(syn, delay, k):
             except Exception as e:
                 return {"what": "C17/serial/clear_exception", "input": dict(syn=syn, delay=delay, k=k), "expected": "ok", "actual": f"{type(e).__name__}: {e}"}
             tw_c, tw_n = conn(1, syn, delay), lif()
+            bad = not_at_rest([("connection", lc), ("neuron", ln)]) if t > 0 else []
+            if bad:
+                return {"what": "C17/serial/clear_leaves_component_state", "input": dict(syn=syn, delay=delay, k=k), "expected": "connection (every synaptic record) and neuron at rest", "actual": bad}
         out = lay(x)
         exp = tw_n(tw_c(x) * 1.5)
         if not torch.equal(out, exp):
@@ -131,7 +138,7 @@ def sweep(tier="quick", seed=0, unsupported=()):
         if f is not None and not any(x["what"] == f["what"] for x in failures):
             failures.append(f)
 
-    for syn, delay in (("delta", None), ("single", None), ("delta", 2.0)):
+    for syn, delay in (("delta", None), ("single", None), ("delta", 2.0), ("double", None), ("double", 2.0), ("deltaplus", 2.0)):
         for k in range(0, 9, 2 if tier == "quick" else 1):
             cases += 1
             add(serial_case(syn, delay, k))
